@@ -223,7 +223,7 @@ def evaluate(case, out, v):
                 if c != clock:
                     continue
                 if p['n'] < h['n'] or p['t_call'] == t_c:
-                    if overdue(p, t_c):
+                    if overdue(p, t_c) and not p.get('maybe_cancelled'):
                         v.fail('task_never_invoked',
                                f'task {tid} on {clock} due at '
                                f'{float(to_secs(clock, p["key"]))} had not '
